@@ -1599,14 +1599,17 @@ def unfor_zip_pairs(f):
 
 
 def unok_or_else_q(f):
-    """R6: `let NAME = RECV.ok_or_else(|| E)?;` -> `let NAME = match RECV { Some(v_) => v_, None => { return Err(E); } };`  (RECV, E verbatim)"""
+    """R6: `let NAME = RECV.ok_or_else(|| E)?;` / `let NAME = RECV.ok_or(E)?;` -> `let NAME = match RECV { Some(v_) => v_, None => { return Err(E); } };`  (RECV, E verbatim)"""
     n = 0
     while True:
-        m = re.search(r'\.\s*ok_or_else(\()', f.body)
+        m = re.search(r'\.\s*ok_or(?:_else)?(\()', f.body)
         if not m:
             break
         close = match_brace(f.body, m.start(1))
-        mi = re.match(r'\s*\|\s*\|\s*(.*)$', f.body[m.start(1) + 1:close], flags=re.S)
+        if f.body[m.start():m.start(1)].rstrip().endswith('ok_or'):
+            mi = re.match(r'(?=)(.*)$', f.body[m.start(1) + 1:close], flags=re.S)
+        else:
+            mi = re.match(r'\s*\|\s*\|\s*(.*)$', f.body[m.start(1) + 1:close], flags=re.S)
         mq = re.match(r'\s*\?\s*;', f.body[close + 1:])
         # statement start: `let NAME =` before the receiver
         ls = f.body.rfind('let ', 0, m.start())
@@ -1776,4 +1779,37 @@ def unfirst_last_let_else(f):
         break
     if n:
         f.rewrites.append(('R1', f'{n}x `let Some(&a) = xs.first()/last() else {{..}}` -> emptiness test + index', ''))
+    return f
+
+
+def inline_thunks(f):
+    """R6: a zero-argument closure bound to a name, `let NAME = || EXPR;`, is inlined: `NAME()` -> `(EXPR)`, `NAME` passed as an argument -> `|| EXPR`
+    (EXPR must not assign: only value-building thunks such as error constructors qualify)"""
+    n = 0
+    while True:
+        m = re.search(r'let (\w+) = \|\|\s*', f.body)
+        if not m:
+            break
+        # EXPR runs to the `;` at nesting depth 0
+        i, depth = m.end(), 0
+        while i < len(f.body):
+            ch = f.body[i]
+            if ch in '({[':
+                depth += 1
+            elif ch in ')}]':
+                depth -= 1
+            elif ch == ';' and depth == 0:
+                break
+            i += 1
+        expr = f.body[m.end():i].strip()
+        if re.search(r'(?<![=!<>])=(?!=)', re.sub(r'\w+\s*:', '', expr)) or i >= len(f.body):
+            break
+        name = m.group(1)
+        rest = f.body[i + 1:]
+        rest = re.sub(r'\b' + name + r'\(\)', lambda _m: '(' + expr + ')', rest)
+        rest = re.sub(r'(?<=[(,])\s*' + name + r'\s*(?=[),])', lambda _m: '|| ' + expr, rest)
+        f.body = f.body[:m.start()] + rest
+        n += 1
+    if n:
+        f.rewrites.append(('R6', f'{n}x named zero-argument closure `let f = || EXPR;` inlined at its uses', ''))
     return f
